@@ -14,6 +14,7 @@ structure Case where
   intervalNs : Nat      -- tick interval of the flow that owns `panicSite`
   latencyNs  : Nat      -- virtual latency of a pipeline call
   services   : Nat      -- recoverers per plugin
+  work       : Nat      -- log payloads handed out per tick (> 0: the pipeline is exercised throughout the case)
   auxMax     : Nat      -- helper goroutines all services of one plugin own together (cache GCs, worker-group loops)
 deriving DecidableEq, Repr
 
@@ -36,7 +37,8 @@ structure Obs where
   panicsInjected     : Nat
   resumed            : Bool   -- scenario "panic": the site was called again (without panicking) after the last panic
   resumedWithinNs    : Nat
-  othersTicked       : Bool   -- scenario "panic": every other flow kept ticking during the cool-down
+  othersTicked       : Bool   -- scenario "panic": every other flow kept ticking during the cool-down period after the first and after the last panic
+  pipelineDone       : Bool   -- scenario "panic": a pipeline call that began after the last panic has returned
 deriving DecidableEq, Repr
 
 /-- something of the instance is still there after Close -/
@@ -51,7 +53,8 @@ def panicClauseApplies (cs : Case) (o : Obs) : Bool := cs.scenario == "panic" &&
 
 /-- the panic clause of `spec` -/
 def panicOk (cs : Case) (o : Obs) : Bool :=
-  !panicClauseApplies cs o || (o.resumed && decide (o.resumedWithinNs ≤ resumeBound cs) && o.othersTicked)
+  !panicClauseApplies cs o ||
+    (o.resumed && decide (o.resumedWithinNs ≤ resumeBound cs) && o.othersTicked && (decide (cs.work = 0) || o.pipelineDone))
 
 /-- C18 on one case -/
 def spec (cs : Case) (o : Obs) : Bool :=
@@ -84,7 +87,7 @@ inductive Verdict
   | closeBeforeRunning        -- KNOWN FINDING (a)
   | closeBeforeServiceStart   -- KNOWN FINDING (b)
   | leakAndPanic | closeSignalDropped | leakUnexplained
-  | panicNotResumed | panicResumedLate | panicStalledOthers
+  | panicNotResumed | panicResumedLate | panicStalledOthers | panicStalledPipeline
 deriving DecidableEq, Repr
 
 def classify (cs : Case) (o : Obs) : Verdict :=
@@ -100,6 +103,7 @@ def classify (cs : Case) (o : Obs) : Verdict :=
   else if panicClauseApplies cs o && !o.resumed then .panicNotResumed
   else if panicClauseApplies cs o && !decide (o.resumedWithinNs ≤ resumeBound cs) then .panicResumedLate
   else if panicClauseApplies cs o && !o.othersTicked then .panicStalledOthers
+  else if panicClauseApplies cs o && decide (cs.work > 0) && !o.pipelineDone then .panicStalledPipeline
   else .ok
 
 /-- stable words per verdict.  The two KNOWN FINDINGS are the strings starting `close-before-running:` and
@@ -118,7 +122,8 @@ def render (cs : Case) (o : Obs) : Verdict → String
   | .leakUnexplained => s!"leak-unexplained: after Close {o.leakedServiceStart} serviceStart, {o.leakedService} service, {o.leakedAux} helper and {o.leakedInflight} in-flight goroutines remain (ticking={o.ticking}, bubbleEnded={o.bubbleEnded}) with close errors not-running={o.errNotRunning} not-started={o.errNotStarted} other={o.errOther}"
   | .panicNotResumed => s!"panic-not-resumed: the flow calling {cs.panicSite} did not resume within the cool-down plus one tick after the panic"
   | .panicResumedLate => s!"panic-resumed-late: the flow calling {cs.panicSite} resumed later than the cool-down plus one tick"
-  | .panicStalledOthers => "panic-stalled-others: another flow stopped ticking during the cool-down"
+  | .panicStalledOthers => "panic-stalled-others: another flow stopped ticking after the first or after the last panic"
+  | .panicStalledPipeline => "panic-stalled-pipeline: no pipeline call that began after the last panic has completed"
 
 def explain (cs : Case) (o : Obs) : String := render cs o (classify cs o)
 
@@ -128,6 +133,7 @@ def Verdict.tag : Verdict → String
   | .closeBeforeRunning => "close-before-running" | .closeBeforeServiceStart => "close-before-service-start"
   | .leakAndPanic => "leak-and-panic" | .closeSignalDropped => "close-signal-dropped" | .leakUnexplained => "leak-unexplained"
   | .panicNotResumed => "panic-not-resumed" | .panicResumedLate => "panic-resumed-late" | .panicStalledOthers => "panic-stalled-others"
+  | .panicStalledPipeline => "panic-stalled-pipeline"
 
 /-! ### the model's prediction for a case
 
@@ -167,6 +173,6 @@ def predict (fx : Fixes) (cs : Case) (nNotRunning nNotStarted : Nat) (closeCalle
     bubbleEnded := survived && decide (nNotStarted = 0),   -- (a) is repaired by a second Close, (b) is not (Props)
     after2ndServiceStart := 0, after2ndService := if closeCalled then nNotStarted else 0,
     panicsInjected := panics, resumed := resumed, resumedWithinNs := if resumed then cs.intervalNs else 0,
-    othersTicked := true }
+    othersTicked := true, pipelineDone := survived }
 
 end AutoVerif.C18
